@@ -264,7 +264,26 @@ func verifState(w http.ResponseWriter, r *http.Request) {
 		}
 		out = append(out, st)
 	}
-	verifReply(w, map[string]any{"ready": ready, "shards": out, "points": verifhook.Counts(),
+	type ptState struct {
+		DB     string `json:"db"`
+		PT     uint32 `json:"pt"`
+		Raft   bool   `json:"raft"`
+		Leader bool   `json:"leader"`
+	}
+	var pts []ptState
+	e.mu.RLock()
+	for name, partitions := range e.DBPartitions {
+		for id, pt := range partitions {
+			ps := ptState{DB: name, PT: id}
+			if l, ok := pt.node.(interface{ VerifIsLeader() bool }); ok && pt.node != nil {
+				ps.Raft = true
+				ps.Leader = l.VerifIsLeader()
+			}
+			pts = append(pts, ps)
+		}
+	}
+	e.mu.RUnlock()
+	verifReply(w, map[string]any{"ready": ready, "shards": out, "partitions": pts, "points": verifhook.Counts(),
 		"fs_count": fileops.VerifCount(), "fs_enabled": fileops.VerifEnabled()})
 }
 
